@@ -84,6 +84,7 @@ type Monitors struct {
 	interleave  map[string]bool
 
 	oracles []oracle
+	final   *finalOracle
 }
 
 type promotion struct {
